@@ -2,6 +2,11 @@
 
 package memefish
 
+import (
+	"github.com/cloudspannerecosystem/memefish/ast"
+	"github.com/cloudspannerecosystem/memefish/token"
+)
+
 // Hooks for the verification harness in /verif (build tag "verif"); never compiled otherwise.
 
 // VerifNextToken advances the lexer in the given mode (noPanic is the mode used by parser error recovery).
@@ -9,3 +14,49 @@ func (l *Lexer) VerifNextToken(noPanic bool) { l.nextToken(noPanic) }
 
 // VerifErrors exposes the errors collected so far.
 func (p *Parser) VerifErrors() []*Error { return p.errors }
+
+// VerifRecover runs one of the four recovery handlers ("statement", "query", "expr", "type") on the input s the way a
+// parse function does after a syntax error: the lexer is advanced skip tokens in panic mode (a lexical error stops the
+// advance and leaves the lexer as it was before the failing token, which is what a real recovery restores), that lexer
+// is cloned, and the handler is called with the clone and a dummy *Error. It returns the BadNode built by the handler
+// and the parser's current token afterwards.
+func VerifRecover(kind string, simple bool, s string, skip int) (*ast.BadNode, token.Token) {
+	p := &Parser{Lexer: &Lexer{File: &token.File{Buffer: s}}}
+	for i := 0; i < skip; i++ {
+		if !verifAdvance(p) {
+			break
+		}
+	}
+	l := p.Lexer.Clone()
+	e := &Error{Message: "verif"}
+	var bad *ast.BadNode
+	switch kind {
+	case "statement":
+		bad = p.handleParseStatementError(e, l)
+	case "query":
+		bad = p.handleParseQueryExprError(simple, e, l).BadNode
+	case "expr":
+		bad = p.handleParseExprError(e, l).BadNode
+	case "type":
+		bad = p.handleParseTypeError(e, l).BadNode
+	default:
+		panic("VerifRecover: unknown handler " + kind)
+	}
+	return bad, p.Token
+}
+
+// verifAdvance reads one token in panic mode; on a lexical error it restores the lexer and reports false.
+func verifAdvance(p *Parser) (ok bool) {
+	l := p.Lexer.Clone()
+	defer func() {
+		if r := recover(); r != nil {
+			if _, isErr := r.(*Error); !isErr {
+				panic(r)
+			}
+			p.Lexer = l
+			ok = false
+		}
+	}()
+	p.nextToken()
+	return true
+}
